@@ -268,6 +268,163 @@ fn judge(ctx: &mut Ctx, api: &str, b: &[u8], m: &Model, evs: &[Ev], late: usize,
     }
 }
 
+/// Items carry the input's lifetime, not the iterator's, so they must still be what they were when
+/// the iterator itself is gone. The iterator is boxed and drained, copies of every key and raw
+/// text are taken as they are yielded, the iterator is dropped (the allocator poisons whatever it
+/// owned), and keys and raw texts are compared with the copies; then the values are dropped as
+/// well and the keys are compared once more.
+fn retained_obj<'a, I>(ctx: &mut Ctx, api: &str, it: I)
+where
+    I: Iterator<Item = sonic_rs::Result<(std::borrow::Cow<'a, str>, LazyValue<'a>)>>,
+{
+    ctx.ops(1);
+    let mut it = Box::new(it);
+    let mut kept: Vec<(std::borrow::Cow<'a, str>, LazyValue<'a>)> = vec![];
+    let mut copies: Vec<(Vec<u8>, Vec<u8>)> = vec![];
+    while kept.len() < 48 {
+        match it.next() {
+            Some(Ok((k, v))) => {
+                copies.push((k.as_bytes().to_vec(), v.as_raw_str().as_bytes().to_vec()));
+                kept.push((k, v));
+            }
+            _ => break,
+        }
+    }
+    if kept.is_empty() {
+        return;
+    }
+    drop(it);
+    let scratch: Vec<Vec<u8>> = copies.iter().map(|(k, r)| vec![b'#'; k.len() + r.len() + 8]).collect();
+    for (i, ((k, v), (ck, cr))) in kept.iter().zip(&copies).enumerate() {
+        if k.as_bytes() != &ck[..] {
+            ctx.fail(&format!("retained-key:{}", api), format!("{}: key {} read {:?} once the iterator was dropped, it was {:?} when yielded", api, i, crate::core::truncate(&String::from_utf8_lossy(k.as_bytes()), 60), crate::core::truncate(&String::from_utf8_lossy(ck), 60)));
+            return;
+        }
+        if v.as_raw_str().as_bytes() != &cr[..] {
+            ctx.fail(&format!("retained-value:{}", api), format!("{}: item {} read {:?} once the iterator was dropped, it was {:?} when yielded", api, i, crate::core::truncate(&String::from_utf8_lossy(v.as_raw_str().as_bytes()), 60), crate::core::truncate(&String::from_utf8_lossy(cr), 60)));
+            return;
+        }
+    }
+    let keys: Vec<std::borrow::Cow<'a, str>> = kept.into_iter().map(|(k, _)| k).collect();
+    drop(scratch);
+    for (i, (k, (ck, _))) in keys.iter().zip(&copies).enumerate() {
+        if k.as_bytes() != &ck[..] {
+            ctx.fail(&format!("retained-key:{}", api), format!("{}: key {} read {:?} once the iterator and all yielded values were dropped, it was {:?} when yielded", api, i, crate::core::truncate(&String::from_utf8_lossy(k.as_bytes()), 60), crate::core::truncate(&String::from_utf8_lossy(ck), 60)));
+            return;
+        }
+    }
+    ctx.class("iter:items-outlive-iterator");
+}
+
+fn retained_arr<'a, I>(ctx: &mut Ctx, api: &str, it: I)
+where
+    I: Iterator<Item = sonic_rs::Result<LazyValue<'a>>>,
+{
+    ctx.ops(1);
+    let mut it = Box::new(it);
+    let mut kept: Vec<LazyValue<'a>> = vec![];
+    let mut copies: Vec<Vec<u8>> = vec![];
+    while kept.len() < 48 {
+        match it.next() {
+            Some(Ok(v)) => {
+                copies.push(v.as_raw_str().as_bytes().to_vec());
+                kept.push(v);
+            }
+            _ => break,
+        }
+    }
+    if kept.is_empty() {
+        return;
+    }
+    drop(it);
+    let scratch: Vec<Vec<u8>> = copies.iter().map(|r| vec![b'#'; r.len() + 8]).collect();
+    // in reverse, so that every value is read after some of its siblings are gone
+    while let Some(v) = kept.pop() {
+        let cr = copies.pop().unwrap();
+        if v.as_raw_str().as_bytes() != &cr[..] {
+            ctx.fail(&format!("retained-value:{}", api), format!("{}: item {} read {:?} once the iterator was dropped, it was {:?} when yielded", api, kept.len(), crate::core::truncate(&String::from_utf8_lossy(v.as_raw_str().as_bytes()), 60), crate::core::truncate(&String::from_utf8_lossy(&cr), 60)));
+            return;
+        }
+    }
+    drop(scratch);
+    ctx.class("iter:items-outlive-iterator");
+}
+
+/// every way of getting an iterator whose items may outlive it, over one well-formed text
+fn retained_routes(ctx: &mut Ctx, s: &str, object: bool) {
+    let fs = FastStr::new(s);
+    let by = Bytes::copy_from_slice(s.as_bytes());
+    let owned = s.to_string();
+    let none: [&str; 0] = [];
+    if object {
+        retained_obj(ctx, "to_object_iter(&str)", sonic_rs::to_object_iter(s));
+        retained_obj(ctx, "to_object_iter(&String)", sonic_rs::to_object_iter(&owned));
+        retained_obj(ctx, "to_object_iter(&FastStr)", sonic_rs::to_object_iter(&fs));
+        retained_obj(ctx, "to_object_iter(&Bytes)", sonic_rs::to_object_iter(&by));
+        retained_obj(ctx, "to_object_iter_unchecked(&FastStr)", unsafe { sonic_rs::to_object_iter_unchecked(&fs) });
+        if let Ok(lv) = sonic_rs::from_str::<LazyValue>(s) {
+            if let Some(it) = lv.into_object_iter() {
+                retained_obj(ctx, "from_str::<LazyValue>.into_object_iter", it);
+            }
+        }
+        if let Ok(lv) = sonic_rs::from_slice::<LazyValue>(s.as_bytes()) {
+            if let Some(it) = lv.into_object_iter() {
+                retained_obj(ctx, "from_slice::<LazyValue>.into_object_iter", it);
+            }
+        }
+        if let Some(it) = sonic_rs::get(&fs, &none).ok().and_then(|lv| lv.into_object_iter()) {
+            retained_obj(ctx, "get(&FastStr).into_object_iter", it);
+        }
+        if let Some(it) = sonic_rs::get(&by, &none).ok().and_then(|lv| lv.into_object_iter()) {
+            retained_obj(ctx, "get(&Bytes).into_object_iter", it);
+        }
+        if let Some(it) = sonic_rs::get(s, &none).ok().and_then(|lv| lv.into_object_iter()) {
+            retained_obj(ctx, "get(&str).into_object_iter", it);
+        }
+        // members that are containers themselves, through every carrier
+        let wrapped = format!("[{}]", s);
+        let wfs = FastStr::new(&wrapped);
+        if let Some(it) = sonic_rs::to_array_iter(&wfs).next().and_then(|x| x.ok()).and_then(|lv| lv.into_object_iter()) {
+            retained_obj(ctx, "to_array_iter(&FastStr) member.into_object_iter", it);
+        }
+        if let Some(it) = sonic_rs::from_str::<Vec<LazyValue>>(&wrapped).ok().and_then(|mut v| v.pop()).and_then(|lv| lv.into_object_iter()) {
+            retained_obj(ctx, "Vec<LazyValue> member.into_object_iter", it);
+        }
+        if let Some(it) = sonic_rs::from_str::<LazyValue>(&wrapped).ok().and_then(|lv| lv.into_array_iter()).and_then(|mut it| it.next()).and_then(|x| x.ok()).and_then(|lv| lv.into_object_iter()) {
+            retained_obj(ctx, "into_array_iter member.into_object_iter", it);
+        }
+    } else {
+        retained_arr(ctx, "to_array_iter(&str)", sonic_rs::to_array_iter(s));
+        retained_arr(ctx, "to_array_iter(&String)", sonic_rs::to_array_iter(&owned));
+        retained_arr(ctx, "to_array_iter(&FastStr)", sonic_rs::to_array_iter(&fs));
+        retained_arr(ctx, "to_array_iter(&Bytes)", sonic_rs::to_array_iter(&by));
+        retained_arr(ctx, "to_array_iter_unchecked(&FastStr)", unsafe { sonic_rs::to_array_iter_unchecked(&fs) });
+        if let Some(it) = sonic_rs::from_str::<LazyValue>(s).ok().and_then(|lv| lv.into_array_iter()) {
+            retained_arr(ctx, "from_str::<LazyValue>.into_array_iter", it);
+        }
+        if let Some(it) = sonic_rs::from_slice::<LazyValue>(s.as_bytes()).ok().and_then(|lv| lv.into_array_iter()) {
+            retained_arr(ctx, "from_slice::<LazyValue>.into_array_iter", it);
+        }
+        if let Some(it) = sonic_rs::get(&fs, &none).ok().and_then(|lv| lv.into_array_iter()) {
+            retained_arr(ctx, "get(&FastStr).into_array_iter", it);
+        }
+        if let Some(it) = sonic_rs::get(&by, &none).ok().and_then(|lv| lv.into_array_iter()) {
+            retained_arr(ctx, "get(&Bytes).into_array_iter", it);
+        }
+        if let Some(it) = sonic_rs::get(s, &none).ok().and_then(|lv| lv.into_array_iter()) {
+            retained_arr(ctx, "get(&str).into_array_iter", it);
+        }
+        let wrapped = format!("{{\"w\":{}}}", s);
+        let wfs = FastStr::new(&wrapped);
+        if let Some(it) = sonic_rs::to_object_iter(&wfs).next().and_then(|x| x.ok()).and_then(|(_, lv)| lv.into_array_iter()) {
+            retained_arr(ctx, "to_object_iter(&FastStr) member.into_array_iter", it);
+        }
+        if let Some(it) = sonic_rs::from_str::<LazyValue>(&wrapped).ok().and_then(|lv| lv.into_object_iter()).and_then(|mut it| it.next()).and_then(|x| x.ok()).and_then(|(_, lv)| lv.into_array_iter()) {
+            retained_arr(ctx, "into_object_iter member.into_array_iter", it);
+        }
+    }
+}
+
 pub fn check_input(ctx: &mut Ctx, b: &[u8]) {
     let utf8 = std::str::from_utf8(b).is_ok();
     let ma = model(b, false);
@@ -335,6 +492,11 @@ pub fn check_input(ctx: &mut Ctx, b: &[u8]) {
         if let Ok(pre) = crate::refmodel::recog::parse_prefix(b, 0) {
             if pre.flags.max_depth <= 64 {
                 let frag = &s[pre.root.start..pre.root.end];
+                match &pre.root.k {
+                    K::Arr(_) => retained_routes(ctx, frag, false),
+                    K::Obj(_) => retained_routes(ctx, frag, true),
+                    _ => {}
+                }
                 if let Ok(lv) = sonic_rs::from_str::<LazyValue>(frag) {
                     let fb = frag.as_bytes();
                     match &pre.root.k {
@@ -445,6 +607,6 @@ impl Check for C12 {
         ctx.sample(&c.entry);
     }
     fn required_classes(&self, _b: &str, _t: Tier) -> Vec<&'static str> {
-        vec!["input:well-formed-array", "input:well-formed-object", "input:malformed", "input:malformed-non-utf8"]
+        vec!["input:well-formed-array", "input:well-formed-object", "input:malformed", "input:malformed-non-utf8", "iter:items-outlive-iterator"]
     }
 }
